@@ -44,7 +44,8 @@ class Client(object):
         event_dispatcher.Message = mock.MagicMock()
         from asl_workflow_engine.state_engine import StateEngine
         self.which = which
-        tmp = tempfile.mkdtemp(prefix="c10_")
+        from natives.sim import _tmp_root
+        tmp = tempfile.mkdtemp(prefix="c10_", dir=_tmp_root())
         cfg = {"state_engine": {"store_url": os.path.join(tmp, "ASL_store.json"), "execution_ttl": 500},
                "rest_api": {"host": "127.0.0.1", "port": 4584, "region": "local"}}
         cwd = os.getcwd()
